@@ -94,7 +94,11 @@ def json_numpy_or_set_obj_hook(
     if isinstance(dct, dict) and '_is_numpy_array' in dct:
         if dct['_is_numpy_array'] is True:
             data = dct['data']
-            return np.array(data)
+            array = np.array(data)
+            if array.size == 0 and 'shape' in dct:
+                # An empty array loses its shape in the list representation
+                array = np.reshape(array, dct['shape'])
+            return array
 
         raise ValueError(  # pragma: no cover
             'Json representation contains the "_is_numpy_array" key '
